@@ -217,7 +217,12 @@ impl<L: Language> NthChild<L> {
         .filter(|n| n.is_named())
         // every sibling is tried on its own: bindings made for one sibling
         // must not decide whether another sibling is counted
-        .filter_map(|child| rule.match_node_with_env(child, &mut Cow::Borrowed(env.as_ref())))
+        // keep the sibling itself: a relational ofRule reports the node it found
+        .filter(|child| {
+          rule
+            .match_node_with_env(child.clone(), &mut Cow::Borrowed(env.as_ref()))
+            .is_some()
+        })
         .collect()
     } else {
       parent.children().filter(|n| n.is_named()).collect()
